@@ -116,6 +116,7 @@ type evCfg struct {
 	SysUsed   int64            `json:"sys_used"`
 	Pods      []evPod          `json:"pods"`
 	Shuffle   bool             `json:"shuffle"`
+	Profile   string           `json:"profile,omitempty"` // "" | "shared" (informational: how the generator biased this plan)
 }
 
 type evOp struct {
@@ -231,9 +232,61 @@ func evGenPod(g *sim.Rng, name string, capMi int64) evPod {
 	return p
 }
 
+// evSharedThr: thresholds of the "shared" profile: every strategy validly configured, wide release bands, priority
+// thresholds under which most pods are candidates of the priority strategies.
+func evSharedThr(g *sim.Rng) evThr {
+	t := evThr{Enable: true}
+	t.MemThr = evP64(g.PickI64(50, 60, 70, 80))
+	t.MemLower = evP64(*t.MemThr - g.PickI64(5, 10, 20, 30))
+	t.AllocThr = evP64(g.PickI64(40, 60, 80, 100))
+	t.AllocLower = evP64(*t.AllocThr - g.PickI64(5, 10, 20))
+	t.PrioThr = evP32(int32(g.PickInt(7999, 9999, 9999)))
+	t.AllocPrioThr = evP32(int32(g.PickInt(5999, 7999, 7999)))
+	return t
+}
+
+// evSharedPod: pods of the "shared" profile are mostly regular candidates: eviction enabled, no policy annotation, a
+// usage sample, non-zero usage and request.
+func evSharedPod(g *sim.Rng, p *evPod, capMi int64) {
+	if g.Bool(0.8) {
+		p.Enabled = "true"
+	}
+	if p.Policy != nil && g.Bool(0.7) {
+		p.Policy = nil
+	}
+	if p.Phase == "" && p.Used == 0 && g.Bool(0.8) {
+		p.Used = capMi * g.PickI64(1, 2, 3, 5, 8) / 100
+	}
+	if p.Req == 0 && g.Bool(0.8) {
+		p.Req = capMi * g.PickI64(1, 2, 5) / 100
+	}
+	if p.NoMetric && g.Bool(0.7) {
+		p.NoMetric = false
+	}
+}
+
 func (evEngine) Generate(p *sim.Plan, g *sim.Rng) {
 	cfg := evCfg{}
+	// Profile "shared" (a quarter of the plans): the cross-task clauses of the statement ("one or several simultaneous
+	// tasks", "all patterns of individual eviction calls failing"). Two or three strategies are enabled and validly
+	// configured with wide release bands, most pods are candidates of more than one of them, the node is well over its
+	// thresholds, cooling is short, and (in the fault-injecting plans) eviction calls are refused often with at least
+	// one kind of refusal that leaves the pod running (err-before / 429), so that rounds in which a later task meets a
+	// candidate an earlier task was refused are common.
+	shared := g.Bool(0.25)
 	switch x := g.Intn(10); {
+	case shared:
+		cfg.Profile = "shared"
+		switch g.Intn(4) {
+		case 0:
+			cfg.Features = []string{fBE, fUsed}
+		case 1:
+			cfg.Features = []string{fAlloc, fUsed}
+		case 2:
+			cfg.Features = []string{fBE, fAlloc}
+		default:
+			cfg.Features = append([]string{}, evFeatureOrder...)
+		}
 	case x < 5:
 		cfg.Features = []string{evFeatureOrder[g.Intn(3)]}
 	case x < 8:
@@ -248,6 +301,9 @@ func (evEngine) Generate(p *sim.Plan, g *sim.Rng) {
 	}
 	cfg.IntervalS = g.PickInt(1, 2, 5, 10, 10, 30)
 	cfg.CoolS = g.PickInt(0, 4, 4, 20, 60, 150)
+	if shared {
+		cfg.CoolS = g.PickInt(0, 0, 4, 20)
+	}
 	cfg.CollectS = g.PickInt(1, 1, 5, 10, 30)
 	cfg.CapMi = g.PickI64(1000, 4096, 10000, 65536)
 	cfg.Alloc = map[string]int64{"memory": cfg.CapMi * g.PickI64(80, 90, 100) / 100}
@@ -262,6 +318,9 @@ func (evEngine) Generate(p *sim.Plan, g *sim.Rng) {
 		cfg.Alloc["mid"] = 0
 	}
 	cfg.Thr = evGenThr(g)
+	if shared {
+		cfg.Thr = evSharedThr(g)
+	}
 	cfg.Shuffle = g.Bool(0.7)
 	n := g.Range(5, 14)
 	nops := g.Range(8, 30)
@@ -272,6 +331,9 @@ func (evEngine) Generate(p *sim.Plan, g *sim.Rng) {
 	var total int64
 	for i := 0; i < n; i++ {
 		pod := evGenPod(g, fmt.Sprintf("p%02d", i), cfg.CapMi)
+		if shared {
+			evSharedPod(g, &pod, cfg.CapMi)
+		}
 		cfg.Pods = append(cfg.Pods, pod)
 		total += pod.Used
 	}
@@ -281,6 +343,9 @@ func (evEngine) Generate(p *sim.Plan, g *sim.Rng) {
 		thr = *cfg.Thr.MemThr
 	}
 	want := cfg.CapMi * (thr + g.PickI64(-8, -2, 0, 0, 1, 2, 3, 5, 8, 12)) / 100
+	if shared {
+		want = cfg.CapMi * (thr + g.PickI64(2, 5, 8, 12, 15, 20)) / 100
+	}
 	cfg.SysUsed = want - total
 	if cfg.SysUsed < 0 {
 		cfg.SysUsed = 0
@@ -298,6 +363,18 @@ func (evEngine) Generate(p *sim.Plan, g *sim.Rng) {
 		}
 		if len(p.Faults) == 0 {
 			p.Faults = []string{kinds[g.Intn(len(kinds))]}
+		}
+		if shared {
+			p.FaultRate = []float64{0.15, 0.3, 0.3, 0.5}[g.Intn(4)]
+			refusal := false
+			for _, k := range p.Faults {
+				if k == "err-before" || k == "429" {
+					refusal = true
+				}
+			}
+			if !refusal {
+				p.Faults = append(p.Faults, g.Pick("err-before", "429"))
+			}
 		}
 	}
 
@@ -329,6 +406,9 @@ func (evEngine) Generate(p *sim.Plan, g *sim.Rng) {
 		case x < 74:
 			added++
 			pod := evGenPod(g, fmt.Sprintf("n%02d", added), cfg.CapMi)
+			if shared {
+				evSharedPod(g, &pod, cfg.CapMi)
+			}
 			names = append(names, pod.Name)
 			ops = append(ops, evOp{K: "addpod", Spec: &pod})
 		case x < 78:
@@ -1330,6 +1410,16 @@ func (s *evSim) checkRound(now time.Time, views map[string]*evView, tasks []*evT
 	attempted := map[string]bool{}    // any task, this round
 	succeeded := map[string]bool{}    // acknowledged this round
 	perTask := map[string][]*evView{} // attempts of each task in order
+	// The statement lets a task pass over a pod its order puts first only if that pod "has been evicted, is counted as
+	// pending release, or was really tried and refused" BY THIS TASK: a refusal met by another task of the round (a
+	// transient API error) says nothing about the pod, which is still running and still evictable.
+	//   tried:   per task, the pods it made an eviction call for
+	//   settled: pods that are no longer evictable because of a call of this round, whichever task made it (the API
+	//            applied the eviction, acknowledged or not, or answered that the pod does not exist)
+	//   refusedBy: pods some task's call was refused for (still on the node, not evicted) -> the first such task
+	tried := map[string]map[string]bool{}
+	settled := map[string]bool{}
+	refusedBy := map[string]string{}
 	for i, c := range s.calls {
 		v := views[c.pod]
 		if v == nil {
@@ -1392,9 +1482,12 @@ func (s *evSim) checkRound(now time.Time, views map[string]*evView, tasks []*evT
 				s.fail("order", kind, cls, "%s\ncall #%d: %s evicts %s after %s although the published order puts it first (%s vs %s)", hist, i, c.feature, c.pod, q.spec.Name, evOrd(v), evOrd(q))
 			}
 		}
+		if f, ok := refusedBy[c.pod]; ok && f != c.feature && !settled[c.pod] {
+			r.Probe("candidate-refused-in-earlier-task-retried")
+		}
 		for _, n := range s.order {
 			q := views[n]
-			if q == nil || q == v || attempted[n] || q.pendPoss || s.candidate(q, c.feature) < 2 {
+			if q == nil || q == v || settled[n] || tried[c.feature][n] || q.pendPoss || s.candidate(q, c.feature) < 2 {
 				continue
 			}
 			qUseful := false
@@ -1408,12 +1501,38 @@ func (s *evSim) checkRound(now time.Time, views map[string]*evView, tasks []*evT
 				if c.feature == fBE && v.evprio != q.evprio {
 					cls = clsBEEvPrio
 				}
+				if f, ok := refusedBy[n]; ok {
+					// q is still running and evictable: the only call made for it in this round was refused to another task
+					s.fail("skipped-candidate", kind+"/refused-to-earlier-task-only", cls, "%s\ncall #%d: %s evicts %s but never tried %s which the published order puts first (%s vs %s): it is neither evicted nor pending release, and the only eviction call made for it in this round was refused to %s, not to this task",
+						hist, i, c.feature, c.pod, n, evOrd(q), evOrd(v), f)
+				}
 				s.fail("skipped-candidate", kind, cls, "%s\ncall #%d: %s evicts %s but never tried %s which the published order puts first (%s vs %s) and which is neither evicted nor failing",
 					hist, i, c.feature, c.pod, n, evOrd(q), evOrd(v))
 			}
 		}
+		for _, n := range s.order {
+			// (probe only) the situation in which a refusal met by an earlier task matters to this task's order
+			if f, ok := refusedBy[n]; ok && f != c.feature && !settled[n] && n != c.pod {
+				if q := views[n]; q != nil && s.candidate(q, c.feature) >= 2 && evMustPrecede(q, v, c.feature) {
+					r.Probe("victim-behind-candidate-refused-in-earlier-task")
+					break
+				}
+			}
+		}
 		perTask[c.feature] = append(perTask[c.feature], v)
 		attempted[c.pod] = true
+		if tried[c.feature] == nil {
+			tried[c.feature] = map[string]bool{}
+		}
+		tried[c.feature][c.pod] = true
+		switch {
+		case c.applied || c.outcome == "not-found" || c.outcome == "gone":
+			settled[c.pod] = true
+		case !c.ret:
+			if _, ok := refusedBy[c.pod]; !ok {
+				refusedBy[c.pod] = c.feature
+			}
+		}
 		r.Probe("evict-call:" + c.feature)
 		if c.ret {
 			if !c.api {
@@ -1447,7 +1566,7 @@ func (s *evSim) checkRound(now time.Time, views map[string]*evView, tasks []*evT
 		r.Probe("round-ends-short")
 		for _, n := range s.order {
 			q := views[n]
-			if q == nil || attempted[n] || q.pendPoss || s.candidate(q, t.feature) < 2 {
+			if q == nil || settled[n] || tried[t.feature][n] || q.pendPoss || s.candidate(q, t.feature) < 2 {
 				continue
 			}
 			useful := false
@@ -1458,6 +1577,10 @@ func (s *evSim) checkRound(now time.Time, views map[string]*evView, tasks []*evT
 			}
 			if !useful {
 				continue
+			}
+			if f, ok := refusedBy[n]; ok {
+				s.fail("stops-early", evKind(t.feature)+"/refused-to-earlier-task-only", "", "%s\nthe round ends with %s short of its target (accumulated[%s]=%v, short in %v) although %s never tried candidate %s (%s): the only eviction call made for it in this round was refused to %s",
+					hist, t.feature, t.typ, evAccStr(hi[t.typ]), short, t.feature, n, evOrd(q), f)
 			}
 			s.fail("stops-early", evKind(t.feature), "", "%s\nthe round ends with %s short of its target (accumulated[%s]=%v, short in %v) although candidate %s (%s) was never tried",
 				hist, t.feature, t.typ, evAccStr(hi[t.typ]), short, n, evOrd(q))
@@ -1741,9 +1864,12 @@ func (evEngine) Execute(r *sim.Run) {
 	s.buildSLO()
 	s.startAgent()
 	s.collectorStep(s.start)
-	r.Sample("features=%v interval=%ds cool=%ds collect=%ds cap=%dMi alloc=%v thr{%s} pods=%d sys=%dMi faults=%v@%.2f",
-		s.cfg.Features, s.cfg.IntervalS, s.cfg.CoolS, s.cfg.CollectS, s.cfg.CapMi, s.cfg.Alloc, s.thrString(), len(s.cfg.Pods), s.cfg.SysUsed, r.Plan.Faults, r.Plan.FaultRate)
+	r.Sample("profile=%q features=%v interval=%ds cool=%ds collect=%ds cap=%dMi alloc=%v thr{%s} pods=%d sys=%dMi faults=%v@%.2f",
+		s.cfg.Profile, s.cfg.Features, s.cfg.IntervalS, s.cfg.CoolS, s.cfg.CollectS, s.cfg.CapMi, s.cfg.Alloc, s.thrString(), len(s.cfg.Pods), s.cfg.SysUsed, r.Plan.Faults, r.Plan.FaultRate)
 
+	if s.cfg.Profile != "" {
+		r.Probe("profile:" + s.cfg.Profile)
+	}
 	interval := time.Duration(s.cfg.IntervalS) * time.Second
 	for _, op := range ops {
 		op := op
